@@ -28,7 +28,7 @@ class Machinery(Exception):
 class Model:
     def __init__(self, module, constants, invariants=(), properties=(), constraints=(),
                  action_constraints=(), workers=2, simulate=None, depth=None, label=None,
-                 expect_vectors=True, coverage=False, spec="Spec"):
+                 expect_vectors=True, coverage=False, spec="Spec", view=None):
         self.module = module
         self.constants = constants
         self.invariants = list(invariants)
@@ -42,12 +42,13 @@ class Model:
         self.expect_vectors = expect_vectors
         self.coverage = coverage
         self.spec = spec
+        self.view = view
 
 
 def run_model(model, seed=0):
     cfg = tlcrun.cfg_text(spec=model.spec, constants=model.constants, invariants=model.invariants,
                           properties=model.properties, constraints=model.constraints,
-                          action_constraints=model.action_constraints)
+                          action_constraints=model.action_constraints, extra=(f"VIEW {model.view}" if model.view else ""))
     res = tlcrun.run_tlc(model.module, cfg, workers=model.workers, simulate=model.simulate,
                          depth=model.depth, seed=seed if model.simulate else None,
                          coverage=model.coverage)
